@@ -214,6 +214,10 @@ def check_impl_directly(case, r):
         tol = 64 * (p + 1) * (case['tp']['p2'] + 1) * float(EPS)
         if r['tp_err'] > tol or r['tp_point_err'] > tol:
             bad.append(('tp-eval', 'tensor-product grid/point evaluation differs from the 1D collocation product (rel %g)' % max(r['tp_err'], r['tp_point_err']), 0))
+        if r.get('tp_err_second_grid', 0.0) > tol or r.get('tp_jac_err_second_grid', 0.0) > tol or not r.get('tp_first_grid_again_same', True):
+            bad.append(('tp-eval-second-grid', 'the same BSplineFunc object evaluated on a second grid (same size and end nodes, '
+                        'different interior nodes) differs from the 1D collocation product for that grid (rel %g / jac %g), or '
+                        're-evaluation on the first grid changed' % (r.get('tp_err_second_grid', 0.0), r.get('tp_jac_err_second_grid', 0.0)), 0))
         if r['tp_jac_err'] > tol:
             bad.append(('tp-jac', 'tensor-product grid_jacobian differs from the 1D derivative collocation product (rel %g)' % r['tp_jac_err'], 0))
     return bad
